@@ -28,6 +28,8 @@ class Gen:
         self.arrays = {}       # name -> bounds (declared) or None (auto 10)
         self.subs = []         # subroutine entry lines
         self.err_rate = 0.03
+        self.layout = True     # False: no zones, TAB or POS (their padding depends on the column,
+                               # which the line break forced by BREAK changes: C13 sessions)
 
     # ---------------- expressions
     def small_int(self):
@@ -198,13 +200,13 @@ class Gen:
                 items.append(self.num_expr(1, loopvars))
             elif k < 0.8:
                 items.append(self.str_expr(1))
-            elif k < 0.9:
+            elif k < 0.9 and self.layout:
                 items.append(call("TAB", I(r.choice([0, 5, 14, 20, 30]))))
             else:
                 items.append(call("SPC", I(r.randint(0, 4))))
             sep = r.random()
             if i < n - 1 or sep < 0.4:
-                items.append(";" if sep < 0.7 or i == n - 1 and sep < 0.3 else ",")
+                items.append(";" if sep < 0.7 or i == n - 1 and sep < 0.3 or not self.layout else ",")
         return pr(*items, q=r.random() < 0.1)
 
     def faulty(self):
